@@ -2,7 +2,8 @@
 (* GEN form of C15: TLC enumerates                                                                               *)
 (*   - the abstract credential cases (class x protocol version x number of RoT keys x used index x wildcard x   *)
 (*     which key of the case - used RoT key, another RoT key, debug key - has an X / Y coordinate with a leading *)
-(*     zero byte, DatLayout.ValidShape),                                                                         *)
+(*     zero byte, DatLayout.ValidShape; or x which SLOTS of the RoT key list hold the same key - every partition *)
+(*     of 1..4 slots - x how a repeated slot names its key, DatLayout.ValidSlots),                               *)
 (*   - the histories of the honest host (sequences of answers re-using configuration / credential / response      *)
 (*     objects, DatTerms),                                                                                       *)
 (*   - every delivery attempt of the intruder world of DatTerms: an original response (built by the honest host *)
@@ -13,8 +14,15 @@
 EXTENDS DatTerms, DatLayout, Json
 VARIABLE x
 OrigCreds == {"cA", "cI", "cE"}
-CaseSet == {[kind |-> "case", cls |-> c, ver |-> v, nkeys |-> n, used |-> u, wild |-> w, lz |-> z, coord |-> co] :
-              c \in Classes, v \in Versions, n \in 1..4, u \in 0..3, w \in BOOLEAN, z \in LzRoles, co \in Coords}
+\* the RoT key set is a list of slots: every pattern of slots sharing a key (DatLayout.Patterns(n), n = 1..4) x the way a repeated slot
+\* names its key x each used index; a case varies the shape of ONE key or the slot pattern, not both
+PlainCases(n) == {[kind |-> "case", cls |-> c, ver |-> v, nkeys |-> n, used |-> u, wild |-> w, lz |-> z, coord |-> co, pat |-> p, given |-> "-"] :
+                    c \in Classes, v \in Versions, u \in 0..(n - 1), w \in BOOLEAN, z \in LzRoles, co \in Coords, p \in {<<>> \o AllDistinct(n)}}
+SlotCases(n) == {[kind |-> "case", cls |-> c, ver |-> v, nkeys |-> n, used |-> u, wild |-> w, lz |-> "none", coord |-> "-", pat |-> p, given |-> g] :
+                   c \in Classes, v \in Versions, u \in 0..(n - 1), w \in BOOLEAN, p \in Patterns(n), g \in Givens \ {"-"}}
+CaseSet == UNION {PlainCases(n) \cup SlotCases(n) : n \in 1..4}
+ValidCaseOfSpace(c) == /\ ValidCase(c.cls, c.ver, c.nkeys, c.used) /\ ValidShape(c.ver, c.nkeys, c.lz, c.coord)
+                       /\ ValidSlots(c.nkeys, c.pat, c.given) /\ (c.given # "-" => c.lz = "none")
 AttemptSet == {[kind |-> "attempt", binds |-> bb, c0 |-> c0, u0 |-> u0, ch0 |-> ch0, c |-> c, i |-> i, b |-> b, u |-> u, d |-> d, ch |-> ch] :
                  bb \in BOOLEAN, c0 \in OrigCreds, u0 \in Devices, ch0 \in Chals, c \in Creds, i \in BOOLEAN, b \in Beacons,
                  u \in Devices, d \in Devices, ch \in Chals}
@@ -26,7 +34,7 @@ H2 == {h \in Longer(H1) : ValidHistory(h, FALSE)}
 H3 == {h \in Longer(H2) : ValidHistory(h, FALSE)}
 HistorySet == {[kind |-> "history", h |-> h] : h \in H2 \cup H3}
 ASSUME MaxHistory = 3
-Init == \/ x \in {c \in CaseSet : ValidCase(c.cls, c.ver, c.nkeys, c.used) /\ ValidShape(c.ver, c.nkeys, c.lz, c.coord)}
+Init == \/ x \in {c \in CaseSet : ValidCaseOfSpace(c)}
         \/ x \in {a \in AttemptSet : ~a.binds => a.u = a.u0}          \* RSA: there is no uuid field to splice
         \/ x \in HistorySet
 Next == UNCHANGED x
@@ -51,6 +59,26 @@ HistoryBound == x.kind = "history" => \A bb \in BOOLEAN, w \in BOOLEAN, k \in 1.
    /\ (w \/ x.h[k].d = "d1") => [d |-> x.h[k].d, ch |-> x.h[k].ch, v |-> "Accept"] \in StepVerdicts(bb, w, x.h[k], Devices)
    /\ Cardinality(StepVerdicts(bb, w, x.h[k], Devices)) = Cardinality(Devices) * Cardinality(Chals)
 \* (the layout depends on class, version and number of keys only - not on the values of the keys: checked once per such triple and wildcard flag)
-Layout == x.kind = "case" /\ x.lz = "none" => LayoutLemma(x.cls, x.ver, x.nkeys) /\ (x.cls = "ele2" => Msg2Lemma(x.ver))
+Layout == x.kind = "case" /\ x.lz = "none" /\ x.given = "-" => LayoutLemma(x.cls, x.ver, x.nkeys) /\ (x.cls = "ele2" => Msg2Lemma(x.ver))
+\* ---- the slot dimension
+\* the patterns are exactly the partitions of the slots (1, 2, 5, 15 of them), each in its canonical numbering
+Partitions(S) == {P \in SUBSET ((SUBSET S) \ {{}}) : (UNION P) = S /\ \A a \in P, b \in P : a = b \/ a \cap b = {}}
+ASSUME SlotPatternsArePartitions ==
+  \A n \in 1..4 : /\ Cardinality(Patterns(n)) = <<1, 2, 5, 15>>[n]
+                   /\ {BlocksOf(p) : p \in Patterns(n)} = Partitions(1..n)
+                   /\ \A p \in Patterns(n) : PatternOf(p) = p /\ \A u \in 0..(n - 1) : p[FirstSlot(p, u) + 1] = p[u + 1] /\ FirstSlot(p, u) <= u
+\* one table entry per slot; the entry of the named slot is the hash of the key the credential is signed with; entries are equal exactly
+\* where the slots hold the same key
+SlotEntries == x.kind = "case" => \A k \in RotKinds :
+   LET t == RotHashTerm(k, x.pat) IN
+   /\ Len(t.over) = (IF k = "rsa" THEN 4 ELSE x.nkeys)
+   /\ NamedEntry(k, x.pat, x.used) = [kh |-> x.pat[x.used + 1]]
+   /\ \A i \in 1..x.nkeys, j \in 1..x.nkeys : (t.over[i] = t.over[j]) <=> (x.pat[i] = x.pat[j])
+\* the root of trust is the LIST: a table built over the key files read once (a set) is another term whenever a key is repeated - so the
+\* image side, which hashes the list, and the device would disagree with it
+ListNotSet == x.kind = "case" /\ x.given # "-" => \A k \in RotKinds :
+   /\ RotHashTerm(k, ReadOnce(x.pat)) # RotHashTerm(k, x.pat)
+   /\ Len(ReadOnce(x.pat)) < x.nkeys
+ListIsSetWhenDistinct == x.kind = "case" /\ x.given = "-" => ReadOnce(x.pat) = x.pat
 Emit == PrintT(ToJson(x))
 =============================================================================
